@@ -192,6 +192,43 @@ theorem rendPlan_ok (cfg : TxCfg) (ml : Nat) (vid : Option Bytes) (mid : Bytes) 
     simp only [Nat.not_lt] at this
     exact Nat.le_trans this (Nat.min_le_right _ _)
 
+/-- how the fields of a successful plan come from the configuration -/
+theorem rendPlan_fields (cfg : TxCfg) (ml : Nat) (vid : Option Bytes) (mid : Bytes) (pl : Plan) (h : rendPlan cfg ml vid mid = .ok pl) :
+    ∃ zs ncode ns, sizesOf cfg.code = .ok zs ∧ lookupPair cfg.code = .ok ncode ∧ sizesOf ncode = .ok ns ∧ mid.length = zs.mz ∧
+      wireOf cfg cfg.code = .ok pl.zcodeb ∧ wireOf cfg ncode = .ok pl.ncodeb ∧ wireOf cfg mid = .ok pl.midb ∧
+      pl.nz = (zszOf cfg zs).nz ∧ pl.zWithVid = decide ((zszOf cfg zs).vz ≠ 0) ∧ pl.zSigned = decide ((zszOf cfg zs).az ≠ 0) ∧
+      pl.nWithVid = decide (ns.vz ≠ 0) ∧ pl.nSigned = decide (ns.az ≠ 0) ∧
+      pl.vidt = vid.getD [] ∧ wireOf cfg (vid.getD []) = .ok pl.vidb ∧ (zs.vz ≠ 0 → vid.getD [] ≠ [] ∧ (vid.getD []).length = zs.vz) := by
+  unfold rendPlan rendPlanT at h
+  repeat' split at h
+  all_goals try (simp at h; done)
+  all_goals try (cases h; done)
+  rename_i _ zs hzs _ ncode hpair _ ns hns hvid hmid _ zcodeb hzc _ ncodeb hnc _ midb hmb _ vidb hvb hnoz hzd hmms _ gcnt hg
+  cases h
+  refine ⟨zs, ncode, ns, hzs, hpair, hns, ?_, hzc, hnc, hmb, rfl, rfl, rfl, rfl, rfl, rfl, hvb, ?_⟩
+  · simpa using hmid
+  · intro hz
+    by_cases he : (vid.getD []).isEmpty = true
+    · exact absurd ⟨hz, Or.inl he⟩ hvid
+    · by_cases hl : (vid.getD []).length ≠ zs.vz
+      · exact absurd ⟨hz, Or.inr hl⟩ hvid
+      · exact ⟨by intro h0; rw [h0] at he; simp at he, by simpa using hl⟩
+
+theorem gramCount_le (ml zbz nbz k : Nat) (hk : 1 ≤ k) (hn : 1 ≤ nbz ∨ ml ≤ zbz) (h : ml ≤ nbz * (k - 1) + zbz) : gramCount ml zbz nbz ≤ k := by
+  unfold gramCount
+  split
+  · exact hk
+  · rename_i hgt
+    rcases hn with hn | hn
+    · have : (ml - zbz + nbz - 1) / nbz ≤ k - 1 := by
+        apply Nat.le_of_lt_succ
+        rw [Nat.div_lt_iff_lt_mul (by omega)]
+        have : ml - zbz ≤ nbz * (k - 1) := by omega
+        calc ml - zbz + nbz - 1 < nbz * (k - 1) + nbz := by omega
+          _ = (k - 1 + 1) * nbz := by rw [Nat.add_mul, Nat.one_mul, Nat.mul_comm]
+      omega
+    · exact absurd hn hgt
+
 theorem mkGrams_spec (sign : Bytes → Bytes → Except Exn Bytes) (curt : Bool) (nz : Nat) (ncodeb midb vidb : Bytes) (withVid signed : Bool)
     (vid : Bytes) (gn : Nat) (bs gs : List Bytes) (h : mkGrams sign curt nz ncodeb midb vidb withVid signed vid gn bs = .ok gs) :
     gs.length = bs.length ∧ ∀ i (hi : i < bs.length) (hj : i < gs.length), ∃ num, numField curt (gn + i) nz = .ok num ∧
